@@ -442,6 +442,16 @@ impl HalfConnection {
                 #[cfg(feature = "verif")]
                 crate::verif::tick();
                 if let Some(packet_rc) = entry.fragment_ref.packet.upgrade() {
+                    if entry.fragment_ref.fragment_id == 0 && packet_rc.borrow().is_stale(flush_id) {
+                        // A time-sensitive packet which was taken off the send queue in time, but
+                        // whose transmission could not begin in that flush (flush allocation or
+                        // frame window exhausted), is not transmitted at all. Its fragments are
+                        // dropped from the queue like acknowledged ones, and the receiver skips
+                        // the packet as it would a lost one.
+                        let size = packet_rc.borrow_mut().discard();
+                        self.packet_sender.forget_bytes(size);
+                    }
+
                     let packet_ref = packet_rc.borrow();
 
                     if packet_ref.fragment_acknowledged(entry.fragment_ref.fragment_id) {
